@@ -1011,6 +1011,8 @@ class TOTP:
         """
         digits = self_or_cls.digits
         if isinstance(token, int):
+            if token < 0:
+                raise MalformedTokenError("Token must contain only the digits 0-9")
             token = "%0*d" % (digits, token)
         else:
             token = to_unicode(token, param="token")
